@@ -12,7 +12,7 @@ open Aidl Aidl.Actions Aidl.Lexer
 
 /-! ### running the action monad -/
 
-def runM {α} (x : M α) (env : Env) (ds : List Diag) : Except String (α × List Diag) := (x.run env).run ds
+def runM {α} (x : M α) (env : Env) (ds : List Diag) : Except Panic (α × List Diag) := (x.run env).run ds
 
 theorem runM_bind {α β} (x : M α) (f : α → M β) (env : Env) (ds : List Diag) :
     runM (x >>= f) env ds = match runM x env ds with
@@ -22,7 +22,8 @@ theorem runM_bind {α β} (x : M α) (f : α → M β) (env : Env) (ds : List Di
   cases h : (x.run env).run ds <;> rfl
 theorem runM_pure {α} (a : α) (env : Env) (ds : List Diag) : runM (pure a : M α) env ds = .ok (a, ds) := rfl
 theorem runM_read (env : Env) (ds : List Diag) : runM (read : M Env) env ds = .ok (env, ds) := rfl
-theorem runM_throw {α} (m : String) (env : Env) (ds : List Diag) : runM (throw m : M α) env ds = .error m := rfl
+theorem runM_throw {α} (m : Panic) (env : Env) (ds : List Diag) : runM (throw m : M α) env ds = .error m := rfl
+theorem runM_bad {α} (k : PanicKind) (m : String) (env : Env) (ds : List Diag) : runM (bad k m : M α) env ds = .error ⟨k, m⟩ := rfl
 theorem runM_pushDiag (d : Diag) (env : Env) (ds : List Diag) : runM (pushDiag d) env ds = .ok ((), ds ++ [d]) := rfl
 
 /-! ### ranges -/
@@ -33,7 +34,7 @@ theorem mkPos_eq (env : Env) (ds : List Diag) (off : Nat) :
     runM (mkPos off) env ds =
       match env.lineCol off with
       | some lc => .ok ({ off := off, line := lc.1, col := lc.2 }, ds)
-      | none => .error s!"Range::new: offset {off} is not a character boundary inside the input" := by
+      | none => .error ⟨.bounds, s!"Range::new: offset {off} is not a character boundary inside the input"⟩ := by
   unfold mkPos
   simp only [runM_bind, runM_read]
   cases env.lineCol off <;> rfl
@@ -185,7 +186,7 @@ theorem flattenOpts_order (env : Env) (ds : List Diag) (l r : List Val) (ds' : L
           subst h1
           have := ih ds ys dy hxs
           exact ⟨by rw [← h2, this.1], by simp [this.2]⟩
-      | _ => simp [asOpt, runM_throw] at h
+      | _ => simp [asOpt, runM_bad] at h
   cases hm : runM (l.mapM asOpt) env ds with
   | error m => simp [hm] at h
   | ok y =>
